@@ -273,6 +273,8 @@ def replay(path):
         return 1 if rep is True else 0
     if d.get("kind") == "fgsym":
         from gsv import fgsym
+        if d.get("variant"):
+            fgsym.set_variant(d["variant"])
         return 1 if fgsym.reproduces(d["name"], d["vals"], d["n"], d.get("sep_na")) else 0
     if d.get("kind") == "fg":
         bad, pi = GC.fg_order_dependent(d["w"])
